@@ -60,6 +60,7 @@ fn trace_str<'s, T>(input: &'s str) -> Vec<logos::verif::Event>
 where
     T: logos::Logos<'s, Source = str, Extras = Log>,
 {
+    crate::tick(|| format!("enum {}, input {input:?}", std::any::type_name::<T>()));
     let mut lex = logos::Lexer::<T>::new(input);
     logos::verif::start();
     let mut n = 0;
